@@ -321,6 +321,51 @@ func TestC08(t *testing.T) {
 		rec.NonTrivialEnum(nt)
 		rec.ClassN(fmt.Sprintf("enum-main%d", ti.Main), evals)
 	}
+	// concurrent decodes into separate instances (every socket has its own receiver goroutine, applications decode in
+	// their handlers): "whenever decoding succeeds the value is in range" holds for each of them. For every main number:
+	// 2..3 goroutines per registered type of it, payloads from the low and the high end of the byte range, each result
+	// compared with the decode of the same payload done alone (and through that with the range predicate)
+	if rec.Env.Shard == 0 {
+		byMain := map[int][]typeInfo{}
+		var mains []int
+		for _, ti := range types {
+			if len(byMain[ti.Main]) == 0 {
+				mains = append(mains, ti.Main)
+			}
+			byMain[ti.Main] = append(byMain[ti.Main], ti)
+		}
+		var storms int64
+		for _, m := range mains {
+			plan := c19Plan{Mode: "storm"}
+			for gi := 0; gi < 8; gi++ {
+				ti := byMain[m][gi%len(byMain[m])]
+				n := ti.WireL
+				if n <= 0 {
+					n = 9
+				}
+				mk := func(fill byte) string {
+					p := bytes.Repeat([]byte{fill}, n)
+					p[0] = 0
+					if n == 1 {
+						p[0] = fill & 0x3f
+					}
+					if ti.WireL <= 0 {
+						p[n-1] = 0
+					}
+					return hx(p)
+				}
+				fills := [][]byte{{0x41, 0x7e}, {0xff, 0xe9}, {0x01, 0x80}, {0x3f, 0xc3}}[gi%4]
+				plan.Ops = append(plan.Ops, []c19Op{{Op: "produce", Name: ti.Name, H: 400}, {Op: "unpack", Hex: mk(fills[0])}, {Op: "unpack", Hex: mk(fills[1])}})
+			}
+			storms++
+			if f := common.Guard(func() *common.Fail { return c19Run(plan) }); f != nil {
+				common.Report(t, rec, f, c08Plan{Type: byMain[m][0].Name, Hex: "00"})
+				break
+			}
+		}
+		rec.Eval(storms * 8 * 400 * 2)
+		rec.ClassN("concurrent-decode-storms", storms)
+	}
 	rec.Exhaustive("every length 0..20 under 9 constant fills (with and without zero first/last byte) for each registered type; all 256 payloads of the 1-byte types; all 2^16 payloads of the 2-byte types; all 2^16 value encodings of the 3-byte types under leading bytes 00/ff; all reserved-bit octets of 242.600/251.600")
 	if thorough {
 		rec.Exhaustive("all 2^24 payloads of every 3-byte type; all 2^24 value octets (all day/month/year and weekday/hour/minute/second combinations with all reserved bits) of 10.001, 11.001, 232.600 under leading bytes 00/ff")
